@@ -1,6 +1,6 @@
 (* C16 - reductions: soundness of the equivalence checker used for "agrees on the sector". *)
 From Coq Require Import NArith List Bool.
-From OFV Require Import Base.Cplx Base.Lin Sem.PauliSem Model.QubitOp Check.OpEquiv Thm.C01.QubitHom.
+From OFV Require Import Base.Cplx Base.Lin Sem.PauliSem Model.QubitOp Check.OpEquiv Thm.C01.QubitHom Check.Reductions Thm.C16.SectorSound.
 Import ListNotations.
 Theorem C16_pauli_equiv_sound : forall a b, pauli_equiv a b = true -> forall s, leq N.eqb (qden a s) (qden b s).
 Proof. exact pauli_equiv_sound. Qed.
@@ -8,3 +8,13 @@ Print Assumptions C16_pauli_equiv_sound.
 Theorem C16_product_denotes_composition : forall a b s, leq N.eqb (qden (qmul a b) s) (lbind (qden b s) (qden a)).
 Proof. exact qmul_hom. Qed.
 Print Assumptions C16_product_denotes_composition.
+
+(* the verdict "agrees on the sector" of the reduction checker: if (H' - H) prod_i (1 + s_i)/2 = 0 then H' and H act identically on
+   every vector stabilised by all s_i - any number of qubits, any superposition of basis states *)
+Theorem C16_projector_fixes_sector : forall stabs v, in_sector stabs v -> leq N.eqb (qact (sector_projector stabs) v) v.
+Proof. exact projector_fixes_sector. Qed.
+Print Assumptions C16_projector_fixes_sector.
+Theorem C16_agrees_on_sector_sound : forall H H' stabs, agrees_on_sector H H' stabs = true ->
+  forall v, in_sector stabs v -> leq N.eqb (qact H' v) (qact H v).
+Proof. exact agrees_on_sector_sound. Qed.
+Print Assumptions C16_agrees_on_sector_sound.
